@@ -88,7 +88,11 @@ class LogCapture:
     def canon(self):
         out = []
         for r in self.records:
-            msg = r.getMessage()
+            try:
+                msg = r.getMessage()
+            except Exception:  # noqa  - a record no handler could format: the warning would never be written
+                out.append(["unformattable", LOGGERS.get(r.name, r.name), r.levelname])
+                continue
             m = _IGN.match(msg)
             if m:
                 out.append(["ign", LOGGERS.get(r.name, r.name), [TPE_CODE.get(m.group(1), -1),
@@ -438,40 +442,70 @@ def dec_header(sx):
 
 
 # ---- reader
-def impl_reader(lines, mode, override):
+def file_safe(lines):
+    """can the lines be written to a file and come back as the same list? (no CR/LF inside a line)"""
+    return all(("\r" not in l and "\n" not in l) for l in lines)
+
+
+def impl_reader(lines, mode, override, channel="lines"):
+    """channel: "lines" (MafReader(lines=...)), "path" / "gz" (the lines written, one per physical line with LF or
+    CRLF endings, to a scratch file under /verif/work/<unique>, plain or gzip-compressed, and read with
+    MafReader.reader_from; removed afterwards)"""
     ensure_repo()
+    import gzip
+    import os
+    import shutil
+    import tempfile
     from maflib.reader import MafReader
-    with LogCapture() as cap:
-        out = {"init": None, "recs": [], "end": None, "errs": None}
-        try:
-            rd = MafReader(lines=list(lines), validation_stringency=py_mode(mode), scheme=make_scheme(override))
-        except Exception as e:  # noqa
-            out["init"] = ["exc", c_exn(e)]
-            out["end"] = c_exn(e)
-            out["errs"] = []
-            out["log"] = cap.take()
-            return out
-        sch = rd.scheme()
-        out["init"] = ["ok", {"header": c_header(rd.header()),
-                              "scheme": (None if sch is None else c_scheme_id(sch) + [sch.column_names()]),
-                              "errs": c_errs(rd.validation_errors)}]
-        it = iter(rd)
-        n = 0
-        while n < len(lines) + 5:          # bounded: a reader that never stops is reported, not waited for
-            n += 1
+    work = None
+    try:
+        with LogCapture() as cap:
+            out = {"init": None, "recs": [], "end": None, "errs": None}
             try:
-                r = next(it)
-            except StopIteration:
-                break
+                if channel == "lines":
+                    rd = MafReader(lines=list(lines), validation_stringency=py_mode(mode), scheme=make_scheme(override))
+                else:
+                    assert file_safe(lines)
+                    os.makedirs("/verif/work", exist_ok=True)
+                    work = tempfile.mkdtemp(prefix="rdr_", dir="/verif/work")
+                    path = os.path.join(work, "in.maf" + (".gz" if channel == "gz" else ""))
+                    eol = "\r\n" if (len(lines) % 2 == 1) else "\n"
+                    text = "".join(l + eol for l in lines)
+                    with (gzip.open(path, "wt", newline="") if channel == "gz" else open(path, "w", newline="")) as fh:
+                        fh.write(text)
+                    rd = MafReader.reader_from(path, validation_stringency=py_mode(mode), scheme=make_scheme(override))
             except Exception as e:  # noqa
+                out["init"] = ["exc", c_exn(e)]
                 out["end"] = c_exn(e)
-                break
-            out["recs"].append(c_record(r))
-        else:
-            out["end"] = ["DidNotTerminate"]
-        out["errs"] = c_errs(rd.validation_errors)
-        out["log"] = cap.take()
-    return out
+                out["errs"] = []
+                out["log"] = cap.take()
+                return out
+            sch = rd.scheme()
+            out["init"] = ["ok", {"header": c_header(rd.header()),
+                                  "scheme": (None if sch is None else c_scheme_id(sch) + [sch.column_names()]),
+                                  "errs": c_errs(rd.validation_errors)}]
+            it = iter(rd)
+            n = 0
+            while n < len(lines) + 5:          # bounded: a reader that never stops is reported, not waited for
+                n += 1
+                try:
+                    r = next(it)
+                except StopIteration:
+                    break
+                except Exception as e:  # noqa
+                    out["end"] = c_exn(e)
+                    break
+                out["recs"].append(c_record(r))
+            else:
+                out["end"] = ["DidNotTerminate"]
+            out["errs"] = c_errs(rd.validation_errors)
+            out["log"] = cap.take()
+            if channel != "lines":
+                rd.close()
+        return out
+    finally:
+        if work is not None:
+            shutil.rmtree(work, ignore_errors=True)
 
 
 def wire_reader(lines, mode, override):
@@ -595,10 +629,14 @@ def impl_writer(hlines, mode, specs, channel="fd"):
     from maflib.writer import MafWriter
     h = MafHeader.from_lines(list(hlines), validation_stringency=py_mode("Silent"))
     recs = [MafRecord.from_line(validation_stringency=py_mode("Silent"), **_recspec_args(s)) for s in specs]
-    fd = io.StringIO()
+    class KeepOpen(io.StringIO):
+        def close(self):        # MafWriter.close() closes its handle; the text is read afterwards
+            pass
+
+    fd = KeepOpen()
     work = None
     path = None
-    if channel != "fd":
+    if channel not in ("fd", "sorted"):
         os.makedirs("/verif/work", exist_ok=True)
         work = tempfile.mkdtemp(prefix="rdw_", dir="/verif/work")
         path = os.path.join(work, "out.maf" + (".gz" if channel == "gz" else ""))
@@ -607,6 +645,8 @@ def impl_writer(hlines, mode, specs, channel="fd"):
             try:
                 if channel == "fd":
                     w = MafWriter.from_fd(fd, header=h, validation_stringency=py_mode(mode))
+                elif channel == "sorted":
+                    w = MafWriter.from_fd(fd, header=h, validation_stringency=py_mode(mode), assume_sorted=False)
                 else:
                     w = MafWriter.from_path(path, header=h, validation_stringency=py_mode(mode))
             except Exception as e:  # noqa
@@ -621,6 +661,19 @@ def impl_writer(hlines, mode, specs, channel="fd"):
                 out["adds"].append({"log": cap.take(), "res": res})
             if channel == "fd":
                 text = fd.getvalue()
+            elif channel == "sorted":
+                # the records sit in the sorter until close(): it re-reads them and writes them out
+                try:
+                    w.close()
+                    out["_close"] = None
+                except Exception as e:  # noqa
+                    out["_close"] = c_exn(e)
+                out["_close_log"] = cap.take()
+                text = fd.getvalue()
+                lines_out = ([] if text == "" else
+                             text.split("\n")[:-1] if text.endswith("\n") else ["<no trailing newline>" + text])
+                out["_out"] = lines_out
+                return out
             else:
                 w.close()
                 with (gzip.open(path, "rt") if channel == "gz" else open(path, "r")) as fh:
@@ -737,14 +790,15 @@ WS_TAIL = ["", " ", "  ", "\t", " ", " ", "　", "  \t", "\x0b", "\x0c", "\x
            " ", " ", " ", " ", " ", " ", " "]
 NOT_WS_TAIL = ["​", "᠎", "\x00", "\x08", "\x7f", "﻿", "⁠", "\x1b"]
 GEN_KEYS = ["center", "foo", "a.b", "k", "Version", "versions", "sort.Order", "contig", "n", "#x", "é", "k\tk",
-            "annotation", "filedate", "tumor.aliquot"]
+            "annotation", "filedate", "tumor.aliquot", "gc%", "%s", "k%d"]
 GEN_VALUES = ["x", "a b", "a  b", "1.0", "a b", "　x", "x y z", "v​", "#", "# #", "=", "a,b", "éè",
               "x\ty", "0", "None", "\x00", "a\x0bb"]
 VERSIONS_OK = ["gdc-1.0.0"]
-VERSIONS_BAD = ["gdc-1.0.1", "gdc-2.0.0", "x", "GDC-1.0.0", "gdc-1.0.0-public", "1.0.0"]
+VERSIONS_BAD = ["gdc-1.0.1", "gdc-2.0.0", "x", "GDC-1.0.0", "gdc-1.0.0-public", "1.0.0", "gdc-1.0.0%", "%s", "100%"]
 ANNOTS_OK = ["gdc-1.0.0-public", "gdc-1.0.0-protected", "gdc-1.0.1-public", "gdc-2.0.0-aliquot"]
-ANNOTS_BAD = ["gdc-1.0.0-publi", "junk", "public", "GDC-1.0.0-PUBLIC"]
-ORDERS_BAD = ["coordinate", "Sorted", "unsorted", "Coordinate,", "Barcodes", "BarcodesAndCoordinates", "None"]
+ANNOTS_BAD = ["gdc-1.0.0-publi", "junk", "public", "GDC-1.0.0-PUBLIC", "gdc-1.0.0-public%", "%d", "%%"]
+ORDERS_BAD = ["coordinate", "Sorted", "unsorted", "Coordinate,", "Barcodes", "BarcodesAndCoordinates", "None",
+              "100% sorted", "%s", "Coordinate%"]
 CONTIGS = ["chr1,chr2,chrX", "chr1", "1,2,10,X", "chr2,chr1", ",", "a,,b", "chr1, chr2", "chr1,chr1", "chr1,"]
 
 
@@ -949,7 +1003,7 @@ def gen_reader_case(rng, stream):
                 colline = "\t".join(nm)
             elif d == "col-rename":
                 nm = colline.split("\t")
-                nm[rng.randrange(len(nm))] = rng.choice(["zz", "", "Chromosome ", "#c"])
+                nm[rng.randrange(len(nm))] = rng.choice(["zz", "", "Chromosome ", "#c", "GC%", "%s", "100%d"])
                 colline = "\t".join(nm)
             elif d == "col-dup":
                 nm = colline.split("\t")
@@ -1215,6 +1269,8 @@ def _apply_hop(h, op):
         h.pop(op[1])
     elif t == "clear":
         h.clear()
+    elif t == "value":
+        h[op[1]].value = op[2]
     else:
         h.popitem()
 
@@ -1275,6 +1331,8 @@ def wire_header_ops(hlines, ops):
             w.append([1, S(op[1])])
         elif t == "clear":
             w.append([2])
+        elif t == "value":
+            w.append([4, S(op[1]), S(op[2])])
         else:
             w.append([3])
     return [6, [S(l) for l in hlines], reg, w]
